@@ -49,7 +49,7 @@ def table():
 
 
 def budget(tier):
-    return 1600 if tier == "quick" else 60000
+    return 3000 if tier == "quick" else 60000
 
 
 @st.composite
